@@ -973,9 +973,23 @@ Proof.
       split; [exact RA | apply lates_ok_from_agree; assumption].
 Qed.
 
+Lemma L_agrees_implies_prop_ok_target : forall t, t_agrees t = true -> t_prop_ok t = true.
+Proof.
+  intros t A. unfold t_agrees in A. apply andb_true_iff in A. destruct A as [_ A].
+  unfold t_prop_ok. destruct (one_var_name_per_position (table_of (tregs t))); [|reflexivity].
+  rewrite forallb_forall in *. intros q I. specialize (A q I). unfold t_req_ok.
+  destruct (parse_target (tqt q)) as [[p raw]|]; [|reflexivity].
+  destruct (tqgo q) as [[gp graw]|]; [|reflexivity].
+  rewrite !andb_true_iff in A. destruct A as [_ EX]. apply existsb_exists in EX. destruct EX as [y [IY EQ]].
+  rewrite build_is_router_of in IY.
+  eapply response_ok_eqb; [exact EQ|].
+  apply (L_model_passes_judgement (tnf t) (tna t) (tregs t) (mkReq (tqm q) p "" y [] 0)). exact IY.
+Qed.
+
 Lemma L_agrees_implies_prop_ok : forall c, agrees c = true -> prop_ok c = true.
 Proof.
-  intros [c|s]; cbn; [apply L_agrees_implies_prop_ok_router | apply L_agrees_implies_prop_ok_server].
+  intros [c|s|t]; cbn; [apply L_agrees_implies_prop_ok_router | apply L_agrees_implies_prop_ok_server
+                       | apply L_agrees_implies_prop_ok_target].
 Qed.
 
 (* what the engine of server i holds when it starts = the union of the prefix-extended tables mounted on it before,
